@@ -30,7 +30,11 @@ Schemas == <<
   "x: b: >0",
   "lst: [...{v: *0 | int}]",
   "w: {kind: \"W\", spec: {replicas: *1 | int}}",
-  "two: {m: *1 | *2 | int, lv: *\"info\" | *\"warn\" | string}"
+  "two: {m: *1 | *2 | int, lv: *\"info\" | *\"warn\" | string}",
+  \* a comprehension that writes back into the struct it iterates over (the defaults struct is declared first)
+  "dd: port: 8080",
+  "ss: xx: {port: 8080}",
+  "for k, v in ss {ss: \"\\(k)\": dd}"
 >>
 Data == <<
   "x: a: 5", "x: b: 1", "x: b: 2", "x: c: \"s\"",
